@@ -30,6 +30,15 @@ def enum_trees(depth, lits):
                     new.append(("add", ("mul", a, []), [(o1, ("mul", b, [])), (o2, ("mul", c, []))]))
                 if o1 in "*/%" and o2 in "*/%":
                     new.append(("add", ("mul", a, [(o1, b), (o2, c)]), []))
+        # a parenthesised group as the RIGHT operand: a o1 (b o2 c) for every pair of operators
+        if d == 0:
+            for a, b, c in itertools.product(prims0[:5], repeat=3):
+                for o1, o2 in itertools.product("*/%+-", repeat=2):
+                    inner = ("add", ("mul", b, [(o2, c)]), []) if o2 in "*/%" else ("add", ("mul", b, []), [(o2, ("mul", c, []))])
+                    if o1 in "*/%":
+                        new.append(("add", ("mul", a, [(o1, inner)]), []))
+                    else:
+                        new.append(("add", ("mul", a, []), [(o1, ("mul", inner, []))]))
         out += new
         level = new[:: max(1, len(new) // 12)]
     return out
@@ -75,9 +84,18 @@ def run(v, tier, rng):
     nrand = 400 if tier == "quick" else 6000
     for _ in range(nrand):
         trees.append(const_exp(rng, rng.choice([1, 2, 3, 4])))
+    # always present, in DD position (judged by the arithmetic spec): products whose right operand is a parenthesised
+    # quotient / remainder / sum - grouping must not be flattened away
+    must = []
+    for a, b, c in [(7, 5, 2), (3, 7, 4), (7, 255, 7), (-7, 1, 2), (255, 7, 2), (2, 3, 4), (9, 10, 4), (-1, 255, 16)]:
+        for o1 in "*/%":
+            for o2 in "*/%+-":
+                inner = ("add", ("mul", ("num", b), [(o2, ("num", c))]), []) if o2 in "*/%" else ("add", ("mul", ("num", b), []), [(o2, ("mul", ("num", c), []))])
+                must.append(("add", ("mul", ("num", a), [(o1, inner)]), []))
+    trees = must + trees
     progs = []
     for k, e in enumerate(trees):
-        pos = POSITIONS[k % len(POSITIONS)]
+        pos = "dd" if k < len(must) else POSITIONS[k % len(POSITIONS)]
         progs.append((place(e, pos, k), pos, e))
     cases = [{"id": str(i), "srcs": [A.p_program(p)]} for i, (p, _, _) in enumerate(progs)]
     res = lib.run_cases(cases, "c06")
